@@ -554,18 +554,49 @@ func gen(r *core.PRNG, tier string) any {
 // 24 shared writes and at each of its first 24 statements.
 func directed(tier string) []any {
 	var out []any
+	race := os.Getenv("VERIF_RACE_BINARY") == "1"
 	for _, n := range famNames {
 		f := fams[n]
 		if f.slow && tier != "thorough" {
 			continue
 		}
-		first := f.kinds[0]
+		// distinct op kinds in declaration order
+		var kinds []string
+		seen := map[string]bool{}
+		for _, k := range f.kinds {
+			if !seen[k] {
+				seen[k] = true
+				kinds = append(kinds, k)
+			}
+		}
+		last := f.kinds[len(f.kinds)-1]
+		pair := func(k string, seed uint64, sw SwitchSpec) {
+			out = append(out, &Plan{Fam: n, Seed: seed, Tasks: [][]TaskOp{{{K: k}}, {{K: k}, {K: last}}}, Switches: []SwitchSpec{sw}})
+		}
+		// (a) every op kind against itself: two tasks make the same read-only call on the shared
+		// objects (the race oracle needs no particular pre-emption point for these)
+		for ki, k := range kinds {
+			pair(k, uint64(100+ki), SwitchSpec{Task: 0, Mode: "pw", Num: 0, To: 1})
+			if race && tier != "thorough" {
+				continue // the race build is slower: one plan per kind so that every family is reached
+			}
+			// (b) a grid of pre-emption points spread over the whole first call, whatever its length
+			grid := 8
+			if tier == "thorough" {
+				grid = 32
+			}
+			for g := 0; g < grid; g++ {
+				pair(k, uint64(100+ki), SwitchSpec{Task: 0, Mode: "frac", Num: uint64((2*g + 1) * 1000000 / (2 * grid)), To: 1})
+			}
+		}
+		// (c) the first-use op: pre-emption right after each of its first shared writes, sync
+		// operations and statements
 		lim := 12
 		if tier == "thorough" {
 			lim = 48
 		}
-		if os.Getenv("VERIF_RACE_BINARY") == "1" && tier != "thorough" {
-			lim = 3 // the race build is slower: fewer directed plans per family so that every family is reached
+		if race && tier != "thorough" {
+			lim = 1
 		}
 		for k := 0; k < lim; k++ {
 			for _, mode := range []string{"pw", "early", "sync"} {
@@ -573,8 +604,7 @@ func directed(tier string) []any {
 				if mode == "early" {
 					num = uint64(1 + k*3)
 				}
-				out = append(out, &Plan{Fam: n, Seed: uint64(k), Tasks: [][]TaskOp{{{K: first}}, {{K: first}, {K: f.kinds[len(f.kinds)-1]}}},
-					Switches: []SwitchSpec{{Task: 0, Mode: mode, Num: num, To: 1}}})
+				pair(kinds[0], uint64(k), SwitchSpec{Task: 0, Mode: mode, Num: num, To: 1})
 			}
 		}
 	}
@@ -743,14 +773,14 @@ func sh(b []byte) string {
 
 func main() {
 	race := os.Getenv("VERIF_RACE_BINARY") == "1"
-	runs := map[string]int{"quick": 2500, "thorough": 150000}
+	runs := map[string]int{"quick": 3200, "thorough": 150000}
 	if race {
 		runs = map[string]int{"quick": 320, "thorough": 12000}
 	}
 	core.Main(&core.Property{
 		ID:    "C11",
 		Level: "exploration",
-		Rule:  "schedules: per family (BLS keys in both groups, HPKE X25519/X448/P-256/P-384/hybrid/X-Wing private keys, OPRF keys, threshold-RSA key shares with a lazily filled cache, KEM and signature keys restored from bytes, group constants with a shared expander) 2..4 caller tasks run 1..3 read-only calls each on ONE shared object set under a seeded scheduler with 0..3 planned pre-emptions (uniform over the task's statements, right after entry, right after its k-th shared write); directed: pre-emption of the first user right after each of its first shared writes / statements; oracle: every call returns what it returns when its task runs alone on equal fresh objects, and (race build) ThreadSanitizer reports nothing. non-trivial = at least one pre-emption fired; distinct = distinct (family, op kinds) trace",
+		Rule:  "schedules: per family (BLS keys in both groups, HPKE X25519/X448/P-256/P-384/hybrid/X-Wing private keys, OPRF keys, threshold-RSA key shares with a lazily filled cache, KEM and signature keys restored from bytes, group constants with a shared expander) 2..4 caller tasks run 1..3 read-only calls each on ONE shared object set under a seeded scheduler with 0..3 planned pre-emptions (uniform over the task's statements, right after entry, right after its k-th shared write, right after its k-th sync / atomic operation); directed: for every family, every op kind run by two tasks at once (the race oracle needs no particular pre-emption point for these) with a grid of pre-emption points spread over the whole first call, and pre-emption of the first user right after each of its first shared writes / sync operations / statements; oracle: every call returns what it returns when its task runs alone on equal fresh objects, and (race build) ThreadSanitizer reports nothing. non-trivial = at least one pre-emption fired; distinct = distinct (family, op kinds) trace",
 		Assumptions: []string{
 			"only operations whose contract is read-only are run concurrently; two tasks never mutate the same receiver",
 			"the instrumented copy differs from the library only by calls spliced in front of statements (yieldgen); library-internal goroutines (tss/rsa parallel blinding) are not scheduled and are not used by the task programs",
